@@ -19,8 +19,10 @@ Positions == {"elem_name", "attr_name", "type_name", "op_name", "part_name", "se
 \* address / action: the payload alone, inside a urn: (a URL parser keeps quotes and backslashes of a non-hierarchical
 \* scheme) and in the query and fragment of an http URL
 UrlVariants == {"address_urn", "address_query", "action_urn", "action_query"}
-Sources == Positions \cup {"enum", "facet", "doc_simple", "doc_complex", "uri", "address", "action"} \cup UrlVariants
-SrcOf(p) == CASE p \in Positions -> "name" [] p = "enum" -> "enum" [] p = "facet" -> "facet" [] p \in {"doc_simple", "doc_complex"} -> "doc"
+\* doc_skipped: the documentation of a simple type that produces NO item (it is named like the Rust type of its base),
+\* declared last in its namespace - its comment lines must not be left dangling
+Sources == Positions \cup {"enum", "facet", "doc_simple", "doc_complex", "doc_skipped", "uri", "address", "action"} \cup UrlVariants
+SrcOf(p) == CASE p \in Positions -> "name" [] p = "enum" -> "enum" [] p = "facet" -> "facet" [] p \in {"doc_simple", "doc_complex", "doc_skipped"} -> "doc"
               [] p = "uri" -> "uri" [] p \in {"address", "address_urn", "address_query"} -> "address" [] OTHER -> "action"
 AtBase(p) == CASE p \in {"address_urn", "address_query"} -> "address" [] p \in {"action_urn", "action_query"} -> "action" [] OTHER -> p
 Wrap(p) == CASE p \in {"address_urn", "action_urn"} -> "urn+" [] p \in {"address_query", "action_query"} -> "query+" [] OTHER -> ""
@@ -53,7 +55,8 @@ Xsd(x) == [name |-> "f.xsd", kind |-> "xsd", tns |-> TextAt(x, "uri", "Uplain"),
                [k |-> "simple", n |-> "LevelType", base |-> Int, facets |-> << <<"minInc", TextAt(x, "facet", "num1")>>, <<"maxLen", TextAt(x, "facet", "num1")>> >>],
                Maybe(x, "doc_complex", "doc", [k |-> "complex", n |-> TextAt(x, "type_name", "FocusType"), base |-> [none |-> TRUE],
                   content |-> Seq1(<< El(TextAt(x, "elem_name", "plainMember"), Str), El("code", T("t", "CodeType")) >>),
-                  attrs |-> << [k |-> "attr", n |-> TextAt(x, "attr_name", "plainAttr"), ty |-> Str, use |-> "opt"] >>]) >>]
+                  attrs |-> << [k |-> "attr", n |-> TextAt(x, "attr_name", "plainAttr"), ty |-> Str, use |-> "opt"] >>]) >>
+           \o (IF x.at = "doc_skipped" THEN << [k |-> "simple", n |-> "String", base |-> Str, facets |-> <<>>, doc |-> TextAt(x, "doc_skipped", "")] >> ELSE <<>>)]
 
 Wsdl(x) == [name |-> "f.wsdl", kind |-> "wsdl", tns |-> TextAt(x, "uri", "Uplain"), xmlns |-> <<>>,
   items |-> << [k |-> "element", n |-> "DoIt", inline |-> Inline(<< El("arg", Str) >>)],
